@@ -902,3 +902,30 @@ def macro_invocations(path, name):
         line = text.count('\n', 0, m.start()) + 1
         out.append((line, [re.sub(r'\s+', '', a) for a in args]))
     return out
+
+
+# --------------------------------------------------------------- representable sums
+NOWRAP_BIG = 2 ** 63 - 1
+
+
+def nowrap_sums(op, lv, rv):
+    """Sums of unsigned quantities that the comparison `lv op rv` (holding on the edge) proves representable:
+    X <= MAX - Y with MAX a constant of at least 2^63 gives X + Y; the wrap idiom A <= A + B gives A + B.
+    Returns a list of Lin (constant parts dropped)."""
+    out = []
+    if lv is None or rv is None:
+        return out
+    if op in ('>', '>='):
+        lv, rv, op = rv, lv, {'>': '<', '>=': '<='}[op]
+    if op in ('<', '<='):
+        if rv.c >= NOWRAP_BIG and all(c < 0 for c in rv.t.values()) and all(c > 0 for c in lv.t.values()) and lv.c >= 0:
+            out.append(Lin((lv - Lin(rv.t, 0)).t, 0))
+        d = rv - lv
+        if lv.t and d.c == 0 and d.t and all(c > 0 for c in d.t.values()) and all(c > 0 for c in lv.t.values()):
+            out.append(Lin(rv.t, 0))
+    return out
+
+
+def covered_by(v, facts):
+    """is the sum v (a Lin with non-negative coefficients) dominated term by term by one of the proven sums?"""
+    return any(all(f.t.get(k, 0) >= c for k, c in v.t.items()) for f in facts)
